@@ -119,35 +119,35 @@ static int select_curve2(long cid) {
 	if (cid == cur_cid2) return 1;
 	int th; cur_cid2 = -1;
 	if (tiny) {
-		if (cid < 0 || cid >= ntc2) return 0;
+		if (cid < 0 || cid >= ntc2) do { if (getenv("VF_DEBUG")) fprintf(stderr, "select_curve2(%ld): step 1 failed\n", cid); return 0; } while (0);
 		tiny_curve2 *c = &TC2[cid];
-		cur_cid = -1; if (!select_curve(c->base)) return 0; /* plain (non-endomorphism) base curve over the same prime */
-		if (!learn_beta()) return 0;
+		cur_cid = -1; if (!select_curve(c->base)) do { if (getenv("VF_DEBUG")) fprintf(stderr, "select_curve2(%ld): step 2 failed\n", cid); return 0; } while (0); /* plain (non-endomorphism) base curve over the same prime */
+		if (!learn_beta()) do { if (getenv("VF_DEBUG")) fprintf(stderr, "select_curve2(%ld): step 3 failed\n", cid); return 0; } while (0);
 		if (mpz_cmp_si(F2BETA, c->beta)) { fprintf(stderr, "harness: library beta differs from the table's for p=%ld\n", c->p); exit(2); }
 		f2_set_si(&RC2.a, c->a0, c->a1); f2_set_si(&RC2.b, c->b0, c->b1); mpz_set_si(RN2, c->r); mpz_set_si(RH2, c->h);
 		f2_set_si(&RG2.x, c->gx0, c->gx1); f2_set_si(&RG2.y, c->gy0, c->gy1); RG2.inf = 0;
 		fp2_t a, b; ep2_t g; bn_t r, h; fp2_new(a); fp2_new(b); ep2_new(g); bn_new(r); bn_new(h);
 		vf_fp2_set(a, &RC2.a); vf_fp2_set(b, &RC2.b); ep2_inject(g, &RG2, REP_AFF, 0); vf_bn_set(r, RN2); vf_bn_set(h, RH2);
-		vf_reseed(); VF_TRY(th, ep2_curve_set(a, b, g, r, h)); if (th) return 0;
+		vf_reseed(); VF_TRY(th, ep2_curve_set(a, b, g, r, h)); if (th) do { if (getenv("VF_DEBUG")) fprintf(stderr, "select_curve2(%ld): step 4 failed\n", cid); return 0; } while (0);
 	} else {
-		cur_cid = -1; if (!select_curve(cid)) return 0;
-		if (!learn_beta()) return 0;
+		cur_cid = -1; if (!select_curve(cid)) do { if (getenv("VF_DEBUG")) fprintf(stderr, "select_curve2(%ld): step 5 failed\n", cid); return 0; } while (0);
+		if (!learn_beta()) do { if (getenv("VF_DEBUG")) fprintf(stderr, "select_curve2(%ld): step 6 failed\n", cid); return 0; } while (0);
 		ctx_t *ctx = core_get();
 		/* the twist type is determined by the curve coefficients, not by trial: with xi the cubic/sextic non-residue of the tower
 		 * (v^3 = xi, read from the library's fp6 multiplication), b' = b / xi is the D-type twist and b' = b * xi the M-type twist */
 		int found = 0;
-		VF_TRY(th, ep2_curve_set_twist(RLC_EP_DTYPE)); if (th) return 0;
+		VF_TRY(th, ep2_curve_set_twist(RLC_EP_DTYPE)); if (th) do { if (getenv("VF_DEBUG")) fprintf(stderr, "select_curve2(%ld): step 7 failed\n", cid); return 0; } while (0);
 		vf_fp2_get(&RC2.a, ctx->ep2_a); vf_fp2_get(&RC2.b, ctx->ep2_b);
 		{ f2 xi, t, bb; f2_init(&xi); f2_init(&t); f2_init(&bb); mpz_set(bb.a, RC.b); mpz_set_ui(bb.b, 0);
-			fp6_t x6, y6; fp6_new(x6); fp6_new(y6); fp6_zero(x6); fp_set_dig(x6[1][0], 1); VF_TRY(th, fp6_mul(y6, x6, x6)); if (th) return 0; VF_TRY(th, fp6_mul(y6, y6, x6)); if (th) return 0;
-			vf_fp2_get(&xi, y6[0]); if (!fp2_is_zero(y6[1]) || !fp2_is_zero(y6[2])) return 0;
+			fp6_t x6, y6; fp6_new(x6); fp6_new(y6); fp6_zero(x6); fp_set_dig(x6[1][0], 1); VF_TRY(th, fp6_mul(y6, x6, x6)); if (th) do { if (getenv("VF_DEBUG")) fprintf(stderr, "select_curve2(%ld): step 8 failed\n", cid); return 0; } while (0); VF_TRY(th, fp6_mul(y6, y6, x6)); if (th) do { if (getenv("VF_DEBUG")) fprintf(stderr, "select_curve2(%ld): step 9 failed\n", cid); return 0; } while (0);
+			vf_fp2_get(&xi, y6[0]); if (!fp2_is_zero(y6[1]) || !fp2_is_zero(y6[2])) do { if (getenv("VF_DEBUG")) fprintf(stderr, "select_curve2(%ld): step 10 failed\n", cid); return 0; } while (0);
 			f2_mul(&t, &RC2.b, &xi); if (f2_eq(&t, &bb)) { found = 1; twist_type = RLC_EP_DTYPE; }
 			f2_mul(&t, &bb, &xi); if (f2_eq(&t, &RC2.b)) { found = 1; twist_type = RLC_EP_MTYPE; }
 			f2_clear(&xi); f2_clear(&t); f2_clear(&bb); }
-		if (!found || !f2_is_zero(&RC2.a)) return 0;
-		VF_TRY(th, ep2_curve_set_twist(twist_type)); if (th) return 0;
+		if (!found || !f2_is_zero(&RC2.a)) do { if (getenv("VF_DEBUG")) fprintf(stderr, "select_curve2(%ld): step 11 failed\n", cid); return 0; } while (0);
+		VF_TRY(th, ep2_curve_set_twist(twist_type)); if (th) do { if (getenv("VF_DEBUG")) fprintf(stderr, "select_curve2(%ld): step 12 failed\n", cid); return 0; } while (0);
 		{ ep2_t g; ep2_new(g); ep2_curve_get_gen(g); ep2_extract(&RG2, g); rpt2 t; rpt2_init(&t);
-			if (!rpt2_on_curve(&RC2, &RG2)) return 0; rpt2_mul(&RC2, &t, &RG2, RN); if (!t.inf) return 0; rpt2_clear(&t); }
+			if (!rpt2_on_curve(&RC2, &RG2)) do { if (getenv("VF_DEBUG")) fprintf(stderr, "select_curve2(%ld): step 13 failed\n", cid); return 0; } while (0); rpt2_mul(&RC2, &t, &RG2, RN); if (!t.inf) do { if (getenv("VF_DEBUG")) fprintf(stderr, "select_curve2(%ld): step 14 failed\n", cid); return 0; } while (0); rpt2_clear(&t); }
 		mpz_set(RN2, RN); vf_bn_get(RH2, &ctx->ep2_h);
 	}
 	cur_cid2 = cid;
